@@ -246,6 +246,8 @@ func init() { engine.Register("C15", runC15) }
 
 func runC15(t *verifsim.Tape, cfg engine.Config) *engine.Outcome {
 	o := &engine.Outcome{Features: map[string]int{}}
+	verifsim.SetIdleTape(t)
+	defer verifsim.SetIdleTape(nil)
 	h := sha256.New()
 	nCases := 12
 	if cfg.Tier == "thorough" {
